@@ -8,6 +8,7 @@ for d in "$@"; do d=$(cd $d && pwd)
   if ! git -C /repo apply --check $d/patch.diff 2>/dev/null; then echo "$name: PATCH DOES NOT APPLY"; continue; fi
   git -C /repo apply $d/patch.diff
   out=$(./check ALL quick 2>&1)
+  if echo "$out" | grep -q "cannot build\|panic:"; then echo "$name: CHECKER BROKEN"; git -C /repo checkout -- . ; git -C /repo clean -fdq; continue; fi
   n=$(echo "$out" | grep -c "^VIOLATION")
   if [ $n -gt 0 ]; then echo "$name: ALARM ($n)"; echo "$out" | grep -A1 "^VIOLATION" | grep -v "^VIOLATION\|^--" | cut -c1-330 | head -12; else echo "$name: silent ($(echo "$out" | tail -1 | cut -c1-60))"; fi
   git -C /repo checkout -- . ; git -C /repo clean -fdq
